@@ -27,6 +27,13 @@ def InR (R : List Desc) (x : Desc) : Prop := ∃ y ∈ R, dEq x y
 instance (R : List Desc) (x : Desc) : Decidable (InR R x) := by unfold InR; infer_instance
 
 
+/-- the indices `choose_compatible_weight(bds, b)` can return: compatible and of positive probability (a compatible descriptor of
+weight 0 next to one of positive weight is never taken) -/
+def pickable (bds : List Desc) (b : Option Desc) : List Nat :=
+  let ids := compatibleIds bds b
+  let ps := chooseProbs (ids.map fun i => (bds.getD i default).weight)
+  (ids.zip ps).filterMap fun p => if 0 < p.2 then some p.1 else none
+
 /-- how the object ends: `inv` = the descriptor class reserved for the right terminal (`none`: everything is capped);
 `chain` = every unit that can be entered has exactly two descriptors, so exactly one descriptor is open at any time and
 nothing ever needs a cap -/
@@ -65,7 +72,7 @@ def GrowOK (o : Stoch) (m : Mode) (R : List Desc) (x : Desc) : Prop :=
   | none =>
     compatibleIds (o.repeatBonds.map Prod3.d) (some x) ≠ [] ∧
     (∀ c ∈ compatibleIds (o.repeatBonds.map Prod3.d) (some x), 0 ≤ ((o.repeatBonds.map Prod3.d).getD c default).weight) ∧
-    ∀ c ∈ compatibleIds (o.repeatBonds.map Prod3.d) (some x), EntryOK o m R x c
+    ∀ c ∈ pickable (o.repeatBonds.map Prod3.d) (some x), EntryOK o m R x c
   | some l =>
     l ≠ [] ∧ probsOk (l.map (· / x.weight)) x.weight = true ∧
     ∀ c ∈ List.range l.length, 0 < l.getD c 0 / x.weight → EntryOK o m R x c
@@ -95,11 +102,13 @@ instance (o : Stoch) (x : Desc) : Decidable (CapOK o x) := by
     infer_instance
   infer_instance
 
-/-- **certificate**: every descriptor class of `R` has non-negative weight, can grow into `R`, and can be capped -/
-def Cert (o : Stoch) (m : Mode) (R : List Desc) : Prop :=
-  (∀ x ∈ R, 0 ≤ x.weight) ∧ (∀ x ∈ R, GrowOK o m R x) ∧ (m.chain = false → ∀ x ∈ R, CapOK o x)
+/-- **certificate**: `R0` = the classes the object starts from (open only before the first unit), `R` = the classes that may be
+open after a unit was added.  All of them have non-negative weight and can grow into `R`; those of `R` can be capped (unless the
+object is a chain, where nothing ever needs a cap) -/
+def Cert (o : Stoch) (m : Mode) (R0 R : List Desc) : Prop :=
+  (∀ x ∈ R0 ++ R, 0 ≤ x.weight) ∧ (∀ x ∈ R0 ++ R, GrowOK o m R x) ∧ (m.chain = false → ∀ x ∈ R, CapOK o x)
 
-instance (o : Stoch) (m : Mode) (R : List Desc) : Decidable (Cert o m R) := by unfold Cert; infer_instance
+instance (o : Stoch) (m : Mode) (R0 R : List Desc) : Decidable (Cert o m R0 R) := by unfold Cert; infer_instance
 
 
 
@@ -151,9 +160,15 @@ instance (o : Stoch) (R : List Desc) (inc : Option Desc) : Decidable (StartOK o 
   unfold StartOK; split <;> infer_instance
 
 
+/-- the classes an object starts from: the descriptors of its end groups (no prefix), or the handed descriptor with the left
+terminal's weight and list -/
+def startClasses (o : Stoch) : Option Desc → List Desc
+  | none => o.ends.flatMap (·.bds)
+  | some h => [{ h with trans := o.left.trans, weight := o.left.weight }]
+
 /-- certificate of one stochastic object inside a molecule -/
 def StochOK (o : Stoch) (m : Mode) (R : List Desc) (inc : Option Desc) : Prop :=
-  o.generable = true ∧ ModeOf o m ∧ Cert o m R ∧ StartOK o R inc
+  o.generable = true ∧ ModeOf o m ∧ Cert o m (startClasses o inc) R ∧ StartOK o (startClasses o inc) inc
 
 instance (o : Stoch) (m : Mode) (R : List Desc) (inc : Option Desc) : Decidable (StochOK o m R inc) := by
   unfold StochOK; infer_instance
@@ -164,15 +179,15 @@ def stochOut (m : Mode) : Option Desc := m.inv.map handOf
 
 def tokOut (t : Token) : Option Desc → Option Desc
   | none => t.bds.head?
-  | some h => match compatibleIds t.bds (some h) with
+  | some h => match pickable t.bds (some h) with
     | [j] => (t.bds.eraseIdx j).head?
     | _ => none
 
-/-- a plain token fits: generable; as first element it has at most one descriptor; otherwise exactly one of its descriptors is
-compatible with the descriptor handed in and at most one other descriptor remains -/
+/-- a plain token fits: generable; as first element it has at most one descriptor; otherwise exactly one of its descriptors can be
+picked for the descriptor handed in (compatible, positive probability) and at most one other descriptor remains -/
 def TokOK (t : Token) : Option Desc → Prop
   | none => t.generable = true ∧ t.bds.length ≤ 1
-  | some h => t.generable = true ∧ ∃ j ∈ List.range t.bds.length, compatibleIds t.bds (some h) = [j] ∧ (t.bds.eraseIdx j).length ≤ 1
+  | some h => t.generable = true ∧ ∃ j ∈ List.range t.bds.length, pickable t.bds (some h) = [j] ∧ (t.bds.eraseIdx j).length ≤ 1
 
 instance (t : Token) (inc : Option Desc) : Decidable (TokOK t inc) := by unfold TokOK; split <;> infer_instance
 
@@ -241,10 +256,6 @@ def closeR (o : Stoch) : Nat → List Desc → List Desc
   | f + 1, R =>
     let R' := addClasses R (R.flatMap (growTargets o))
     if R'.length == R.length then R else closeR o f R'
-
-def startClasses (o : Stoch) : Option Desc → List Desc
-  | none => o.ends.flatMap (·.bds)
-  | some h => [{ h with trans := o.left.trans, weight := o.left.weight }]
 
 def guessStoch (o : Stoch) (inc : Option Desc) : ElemCert :=
   let R := closeR o (o.repeatBonds.length + o.endBonds.length + 2) (addClasses [] (startClasses o inc))
